@@ -174,6 +174,10 @@ func (m *Machine) visitInstr(fr *frame, instr ssa.Instruction) continuation {
 		m.chanSend(fr.get(instr.Chan).(*schan), fr.get(instr.X))
 
 	case *ssa.Store:
+		if sr, ok := fr.get(instr.Addr).(*symRef); ok {
+			m.symRefStore(sr, fr.get(instr.Val))
+			break
+		}
 		addr := fr.get(instr.Addr).(*value)
 		if addr == nil {
 			panic(targetPanic{v: "runtime error: invalid memory address or nil pointer dereference"})
@@ -259,6 +263,10 @@ func (m *Machine) visitInstr(fr *frame, instr ssa.Instruction) continuation {
 		fr.env[instr] = fr.get(instr.Iter).(iter).next(m)
 
 	case *ssa.FieldAddr:
+		if sr, ok := fr.get(instr.X).(*symRef); ok {
+			fr.env[instr] = sr.extend(instr.Field)
+			break
+		}
 		p := fr.get(instr.X).(*value)
 		if p == nil {
 			panic(targetPanic{v: "runtime error: invalid memory address or nil pointer dereference"})
@@ -279,8 +287,19 @@ func (m *Machine) visitInstr(fr *frame, instr ssa.Instruction) continuation {
 				panic(targetPanic{v: "runtime error: invalid memory address or nil pointer dereference"})
 			}
 			elems = (*x).(array)
+		case *symRef:
+			if isSym(fr.get(instr.Index)) {
+				panic(pathEnd{status: StUnsupported, msg: "nested symbolic array index"})
+			}
+			fr.env[instr] = x.extend(int(asInt64(fr.get(instr.Index))))
+			return kNext
 		default:
 			panic(engineFault{fmt.Sprintf("unexpected x type in IndexAddr: %T", x)})
+		}
+		if si, ok := fr.get(instr.Index).(symInt); ok && len(elems) > 1 && !m.h.noSymRef {
+			m.checkIndexRange(si, len(elems))
+			fr.env[instr] = &symRef{elems: elems, idx: si}
+			break
 		}
 		i := m.concIndex(fr.get(instr.Index), len(elems))
 		fr.env[instr] = &elems[i]
@@ -422,14 +441,7 @@ func parseBV(text string) (uint64, bool) {
 // concIndex returns a concrete in-range index (panic path if out of range).
 func (m *Machine) concIndex(idx value, n int) int {
 	if si, ok := idx.(symInt); ok {
-		bits, signed := kindBits(si.kind)
-		var oob *Term
-		if signed {
-			oob = m.tt.Or(m.tt.App("bvslt", sortBool, si.t, m.tt.BVLit(0, bits)),
-				m.tt.App("bvsge", sortBool, si.t, m.tt.BVLit(uint64(n), bits)))
-		} else {
-			oob = m.tt.App("bvuge", sortBool, si.t, m.tt.BVLit(uint64(n), bits))
-		}
+		oob := m.oobTerm(si, n)
 		if m.branch(oob) {
 			panic(targetPanic{v: fmt.Sprintf("runtime error: index out of range [symbolic] with length %d", n)})
 		}
@@ -457,25 +469,50 @@ func (m *Machine) symIndexRead(si symInt, elems []value) (value, bool) {
 			}
 		}
 	}
-	bits, signed := kindBits(si.kind)
-	var oob *Term
-	if signed {
-		oob = m.tt.Or(m.tt.App("bvslt", sortBool, si.t, m.tt.BVLit(0, bits)),
-			m.tt.App("bvsge", sortBool, si.t, m.tt.BVLit(uint64(n), bits)))
-	} else {
-		oob = m.tt.App("bvuge", sortBool, si.t, m.tt.BVLit(uint64(n), bits))
-	}
+	oob := m.oobTerm(si, n)
 	if m.branch(oob) {
 		panic(targetPanic{v: fmt.Sprintf("runtime error: index out of range [symbolic] with length %d", n)})
 	}
-	res := elems[n-1]
-	for i := n - 2; i >= 0; i-- {
-		c := m.tt.Eq(si.t, m.tt.BVLit(uint64(i), bits))
-		r, ok := m.mergeValues(c, elems[i], res)
-		if !ok {
-			return nil, false
+	return m.selectTree(si, n, func(i int) value { return elems[i] })
+}
+
+// selectTree builds a balanced ite tree over the bits of the index.
+func (m *Machine) selectTree(si symInt, n int, elem func(i int) value) (value, bool) {
+	bits, _ := kindBits(si.kind)
+	top := 0
+	for (1 << uint(top)) < n {
+		top++
+	}
+	okAll := true
+	bitCond := make([]*Term, top)
+	for b := 0; b < top; b++ {
+		bitCond[b] = m.tt.Eq(m.tt.App(fmt.Sprintf("(_ extract %d %d)", b, b), sortBV(1), si.t), m.tt.BVLit(1, 1))
+	}
+	_ = bits
+	var build func(lo, hi, b int) value
+	build = func(lo, hi, b int) value {
+		if hi-lo <= 1 || b < 0 {
+			return elem(lo)
 		}
-		res = r
+		mid := lo + (1 << uint(b))
+		if mid >= hi {
+			return build(lo, hi, b-1)
+		}
+		lowV := build(lo, mid, b-1)
+		highV := build(mid, hi, b-1)
+		if !okAll {
+			return lowV
+		}
+		r, ok := m.mergeValues(bitCond[b], highV, lowV)
+		if !ok {
+			okAll = false
+			return lowV
+		}
+		return r
+	}
+	res := build(0, n, top-1)
+	if !okAll {
+		return nil, false
 	}
 	return res, true
 }
@@ -558,6 +595,9 @@ func (m *Machine) unop(fr *frame, instr *ssa.UnOp, x value) value {
 		}
 		return v
 	case token.MUL:
+		if sr, ok := x.(*symRef); ok {
+			return m.symRefLoad(sr)
+		}
 		p := x.(*value)
 		if p == nil {
 			panic(targetPanic{v: "runtime error: invalid memory address or nil pointer dereference"})
@@ -1304,4 +1344,103 @@ func (m *Machine) tryIfConvert(fr *frame, instr *ssa.If, c *Term) bool {
 	fr.prevBlock, fr.block = predT, ai.join
 	fr.skipPhis = true
 	return true
+}
+
+// ---------------------------------------------------------------------
+// symbolic element references: &arr[i] with symbolic i
+
+type symRef struct {
+	elems []value
+	idx   symInt
+	path  []int
+}
+
+func (sr *symRef) extend(i int) *symRef {
+	p := make([]int, len(sr.path)+1)
+	copy(p, sr.path)
+	p[len(sr.path)] = i
+	return &symRef{elems: sr.elems, idx: sr.idx, path: p}
+}
+
+func subValue(v value, path []int) *value {
+	cur := &v
+	for _, i := range path {
+		switch c := (*cur).(type) {
+		case structure:
+			cur = &c[i]
+		case array:
+			if i < 0 || i >= len(c) {
+				panic(targetPanic{v: fmt.Sprintf("runtime error: index out of range [%d] with length %d", i, len(c))})
+			}
+			cur = &c[i]
+		default:
+			panic(engineFault{fmt.Sprintf("subValue through %T", c)})
+		}
+	}
+	return cur
+}
+
+func (m *Machine) checkIndexRange(si symInt, n int) {
+	oob := m.oobTerm(si, n)
+	if m.branch(oob) {
+		panic(targetPanic{v: fmt.Sprintf("runtime error: index out of range [symbolic] with length %d", n)})
+	}
+}
+
+func (m *Machine) symRefLoad(sr *symRef) value {
+	n := len(sr.elems)
+	res, ok := m.selectTree(sr.idx, n, func(i int) value { return *subValue(sr.elems[i], sr.path) })
+	if !ok {
+		k := int(m.concretize(sr.idx, "index"))
+		return copyVal(*subValue(sr.elems[k], sr.path))
+	}
+	return copyVal(res)
+}
+
+func (m *Machine) symRefStore(sr *symRef, v value) {
+	bits, _ := kindBits(sr.idx.kind)
+	type upd struct {
+		p *value
+		v value
+	}
+	var upds []upd
+	for i := range sr.elems {
+		var p *value
+		if len(sr.path) == 0 {
+			p = &sr.elems[i]
+		} else {
+			p = subValue(sr.elems[i], sr.path)
+		}
+		c := m.tt.Eq(sr.idx.t, m.tt.BVLit(uint64(i), bits))
+		r, ok := m.mergeValues(c, v, *p)
+		if !ok {
+			k := int(m.concretize(sr.idx, "index"))
+			if len(sr.path) == 0 {
+				store(nil, &sr.elems[k], v)
+			} else {
+				store(nil, subValue(sr.elems[k], sr.path), v)
+			}
+			return
+		}
+		upds = append(upds, upd{p, r})
+	}
+	for _, u := range upds {
+		store(nil, u.p, u.v)
+	}
+}
+
+// oobTerm: idx < 0 || idx >= n for an index of si's type.
+func (m *Machine) oobTerm(si symInt, n int) *Term {
+	bits, signed := kindBits(si.kind)
+	if signed {
+		neg := m.tt.App("bvslt", sortBool, si.t, m.tt.BVLit(0, bits))
+		if bits < 64 && uint64(n) >= uint64(1)<<uint(bits-1) {
+			return neg
+		}
+		return m.tt.Or(neg, m.tt.App("bvsge", sortBool, si.t, m.tt.BVLit(uint64(n), bits)))
+	}
+	if bits < 64 && uint64(n) >= uint64(1)<<uint(bits) {
+		return m.tt.False()
+	}
+	return m.tt.App("bvuge", sortBool, si.t, m.tt.BVLit(uint64(n), bits))
 }
